@@ -67,6 +67,24 @@ CHECKS = {
        "with used < M and Go heap allocation (MemStats.TotalAlloc delta) below 64*M + 64 MiB",
   note="heap-growth and wall-clock bounds are observations, not decided by the specification; byte counts per object are never compared",
   technique="TLA+ specs Quota.tla + QuotaTrace.tla, TLC trace validation of hook traces from real programs (direction B)"),
+ "C12": dict(
+  level="model_checking", ref="5 C12 and notes/C12.md",
+  text="Syntax.tla holds the manual's precedence table as data, renderers (minimal / full / redundant parentheses), a reference parser and evaluation semantics; "
+       "TLC checks Parse(Render(t)) = t on every tree and emits, for all expression trees with up to 3 operators over the 21 binary and 4 unary operators "
+       "(term-building metamethod semantics and integer semantics), the texts and expected values; each is evaluated on the real scanner/parser/compiler/VM in six "
+       "spellings. StrLex.tla gives byte-level denotations of short strings (every escape), long brackets, numerals (kind and value, overflow rules) and token lines; "
+       "all literals up to a length bound, all expression lists in 12 multi-value contexts, and ~50k multi-line programs with one offending token (error line) are compared",
+  note="bounded tree size / literal length; message wording not compared (only the line number); a float numeral is assumed to denote the nearest double; open finding C12-5",
+  technique="TLA+ specs Syntax.tla + StrLex.tla evaluated exhaustively by TLC, expected values compared with the real front end through generated chunks (direction A)"),
+ "C19": dict(
+  level="model_checking", ref="5 C19 and notes/C19.md",
+  text="StrLib.tla / TabLib.tla state the manual's definitions of sub, byte, char, rep, reverse, upper, lower, len, plain find and of insert, remove, move, concat, unpack, pack "
+       "on byte sequences and an abstract get/set table; TLC enumerates every argument tuple of the bounded domain (strings <= 3-4 bytes over {a, B, 0, 255}, positions from "
+       "{mininteger, -len-1..len+1, maxinteger}, lists <= 3-4) and emits the expected result; each call runs on golua (plain table and __index/__newindex/__len proxy) and is "
+       "compared byte-exactly. Sort.tla is used in direction B: the real table.sort runs on TLC-enumerated inputs x 15-17 comparison functions (consistent, inconsistent, erroring) "
+       "and a second TLC run evaluates Permutation / Sorted / error propagation / termination on the observations",
+  note="BIG = 10^6 in TLC stands for maxinteger; not judged: error messages, number/order of metamethod calls, comparison counts, table.move outside its precondition; open finding C19-3",
+  technique="TLA+ specs StrLib.tla, TabLib.tla (direction A, exhaustive) and Sort.tla (direction B, observations validated by TLC)"),
 }
 NOT_YET = {}
 
